@@ -81,6 +81,11 @@ impl<T> Receiver<T> {
 
 impl<T> Drop for Receiver<T> {
     fn drop(&mut self) {
+        // The model is being torn down by a panic, nothing left to track.
+        if rt::Scheduler::is_tearing_down() {
+            return;
+        }
+
         // Drain the channel.
         while !self.object.is_empty() {
             self.recv().unwrap();
